@@ -66,6 +66,7 @@ def run_checks(d, meta, tier):
     finally:
         sh("git -C /repo checkout -- .")
         sh("find %s/replays -name '*.json' -delete" % ROOT)
+        sh("git -C %s checkout -- evidence" % ROOT)      # the evidence committed under /verif is that of the unchanged tree
     return res
 
 
